@@ -3,6 +3,7 @@ From Coq Require Import List ZArith Bool.
 From TR Require Import model.Ring model.Detector model.DetSpec proofs.DetC07 proofs.DetC08.
 (* constants and wiring read from the Go sources on every run *)
 From TR Require Import proofs.FactsDet.
+From TR Require Import model.DetExt proofs.TieDet.
 Import ListNotations.
 Open Scope Z_scope.
 
@@ -40,3 +41,23 @@ Example C08_ex :
   map fst (drun cfg (dinit cfg) [fr 0 0; fr 65535 0; fr 7 100]) = [false; false; true] /\
   map fst (drun cfg (dinit cfg) [fr 0 0; fr 0 0; fr 0 100]) = [false; false; true].
 Proof. vm_compute. auto. Qed.
+
+(* ---- source tie: motion/motion.go as it is in /repo now ----
+   coq/translated/MotionDetector.v is regenerated from the Go source on every run (all 14 functions
+   of the detector, pixel loops included); model/DetExt.v gives the calls that leave it - frame
+   pixels and telemetry by handle, the float32 weights, every floating-point operation (computed
+   with SpecFloat as in the model), debug tracker and logging - their meaning.  For every
+   configuration with a non-empty interior and a compare gap >= 1, every stream of frames of the
+   configured resolution with 16-bit pixels, and resets: after every event the translated detector
+   has exactly the verdict, threshold, background-frame count, background and weights of the model
+   the theorems above are about.  Two decidable side conditions on the model's own run: no weight
+   exceeds MaxFloat32 (the Go code's clamp, dead code by rounding, is not in the model) and the
+   threshold stays a 16-bit value (the Go field is a uint16; shown for all grids up to 2^20 pixels
+   in props/C15.v).  A change to motion.go that changes what the detector computes on some stream
+   breaks this theorem, whether or not a generated input reaches it. *)
+Theorem C08_source_tie : forall c evs,
+    dcfg_ok c -> Forall (event_ok c) evs ->
+    weights_bounded_from c (dinit c) evs = true ->
+    thresh_bounded_from c (dinit c) evs = true ->
+    map (dproj c) (src_dtrace c evs) = model_dtrace c (dinit c) evs.
+Proof. exact tie_detector. Qed.
